@@ -60,6 +60,11 @@ def run(c):
     if not oktr:
         c.oracle("build-tuple-cat-ref", "tuple_cat over a tuple with a reference element cannot be instantiated: " + dtr, "probe-tuple-cat-ref",
                  ["# g++ -std=c++20 -I$REPO/include -fsyntax-only comp/holders/probe_tuple_cat_ref.cpp"] + ["# " + l for l in fulltr.split("\n")[:30]])
+    okci, dci, fullci = probe("probe_constinit")
+    if not okci:
+        c.oracle("build-manual-box-constinit", "manual_box's constexpr constructor is not a constant initialiser (a namespace-scope box is dynamically initialised): " + dci,
+                 "probe-constinit", ["# g++ -std=c++20 -I$REPO/include -fsyntax-only comp/holders/probe_constinit.cpp"] + ["# " + l for l in fullci.split("\n")[:30]])
+    c.count("holders_probe_constinit_ok", int(okci))
     c.count("holders_probe_d19_ok", int(ok19)); c.count("holders_probe_const_apply_ok", int(okca)); c.count("holders_probe_tuple_cat_ref_ok", int(oktr))
     okh, har, hlog = vlib.cxx_build("holders_h", os.path.join(HERE, "harness.cpp"),
                                     extra=["-DHOLDERS_EXPECTED_COPY_ASSIGN"] if ok19 else [])
